@@ -12,7 +12,10 @@
 #include <algorithm>
 #include <cstdint>
 #include <cstring>
+#include <deque>
 #include <functional>
+#include <iterator>
+#include <string>
 #include <tlx/algorithm/multiway_merge.hpp>
 #include <utility>
 #include <vector>
@@ -27,6 +30,9 @@ struct Cfg {
     int alg;   // 0 default argument, 1 LOSER_TREE, 2 LOSER_TREE_COMBINED, 3 LOSER_TREE_SENTINEL, 4 BUBBLE
     bool desc; // comparator direction (greater)
     bool scale = false; // target merge_scale: shape from gen_scale() instead of gen_base()
+    // target merge_iters only (drawn by its dispatcher AFTER the selectors above)
+    bool iters = false; // shape from gen_iters(), sequence-of-pairs held in a std::deque
+    int pair = 0;       // (input iterator kind, output iterator kind), see IT_PAIR_LABEL
 };
 inline bool entry_stable(int e) { return e & 1; }
 inline bool entry_sentinels(int e) { return (e & 2) != 0; }
@@ -38,6 +44,13 @@ void run_rec8_u(pbt::Source& src, const Cfg& cfg);
 void run_rec8_s(pbt::Source& src, const Cfg& cfg);
 void run_rec40_u(pbt::Source& src, const Cfg& cfg);
 void run_rec40_s(pbt::Source& src, const Cfg& cfg);
+// target merge_iters (C05_merge_it_*.cpp): non-contiguous / reverse / strided iterators, owning element types and comparator
+void run_it_rec8_u(pbt::Source& src, const Cfg& cfg);
+void run_it_rec8_s(pbt::Source& src, const Cfg& cfg);
+void run_it_rech_u(pbt::Source& src, const Cfg& cfg);
+void run_it_rech_s(pbt::Source& src, const Cfg& cfg);
+void run_it_recs_u(pbt::Source& src, const Cfg& cfg);
+void run_it_recs_s(pbt::Source& src, const Cfg& cfg);
 
 // ---------------------------------------------------------------- element types
 
@@ -57,6 +70,47 @@ struct Rec40 {
 static_assert(sizeof(Rec40) == 40, "Rec40 must be 40 bytes");
 static_assert(sizeof(Rec40) > 2 * sizeof(size_t), "Rec40 must select the pointer trees");
 static_assert(sizeof(Rec8) <= 2 * sizeof(size_t), "Rec8 must select the copy trees");
+
+//! 16 bytes, NOT trivially copyable (owns a heap cell holding a checksum of its fields) -> copy-based loser trees with a
+//! type whose copy/assignment/destructor must really run; the moved-from state has a key no generator produces
+struct RecH {
+    int32_t key = 0;
+    uint32_t sp = 0; // seq (12 bits) << 20 | pos (20 bits)
+    uint64_t* chk = nullptr;
+    static const int32_t kMovedFromKey = -1431655766;
+    static uint64_t sum(int32_t k, uint32_t s) { return ((uint64_t)(uint32_t)k << 32 | s) ^ 0x9E3779B97F4A7C15ull; }
+    RecH() : chk(new uint64_t(sum(0, 0))) {}
+    RecH(int32_t k, uint32_t s) : key(k), sp(s), chk(new uint64_t(sum(k, s))) {}
+    RecH(const RecH& o) : key(o.key), sp(o.sp), chk(new uint64_t(*o.chk)) {}
+    RecH(RecH&& o) noexcept : key(o.key), sp(o.sp), chk(o.chk) { o.chk = nullptr, o.key = kMovedFromKey, o.sp = 0xFFFFFFFFu; }
+    RecH& operator=(const RecH& o) {
+        if (this != &o) {
+            uint64_t* n = new uint64_t(*o.chk);
+            delete chk;
+            chk = n, key = o.key, sp = o.sp;
+        }
+        return *this;
+    }
+    RecH& operator=(RecH&& o) noexcept {
+        if (this != &o) {
+            delete chk;
+            chk = o.chk, key = o.key, sp = o.sp;
+            o.chk = nullptr, o.key = kMovedFromKey, o.sp = 0xFFFFFFFFu;
+        }
+        return *this;
+    }
+    ~RecH() { delete chk; }
+    bool intact() const { return chk != nullptr && *chk == sum(key, sp); }
+};
+static_assert(sizeof(RecH) == 16 && sizeof(RecH) <= 2 * sizeof(size_t), "RecH must select the copy trees");
+//! 48 bytes, owns a std::string longer than the small-string buffer (destructive move) -> pointer-based loser trees
+struct RecS {
+    int32_t key = 0;
+    int32_t seq = 0;
+    int32_t pos = 0;
+    std::string tag;
+};
+static_assert(sizeof(RecS) > 2 * sizeof(size_t), "RecS must select the pointer trees");
 
 static const int POISON_KEY = -2000000007;
 
@@ -107,6 +161,35 @@ struct Tr<Rec40> {
     }
 };
 
+template <>
+struct Tr<RecH> {
+    static constexpr bool ident = true;
+    static constexpr const char* name = "rech";
+    static RecH make(int key, int seq, int pos) { return RecH(key, ((uint32_t)seq << 20) | ((uint32_t)pos & 0xFFFFFu)); }
+    static int key(const RecH& e) { return e.key; }
+    static int seq(const RecH& e) { return (int)(e.sp >> 20); }
+    static int pos(const RecH& e) { return (int)(e.sp & 0xFFFFFu); }
+    static bool same(const RecH& a, const RecH& b) { return a.intact() && b.intact() && a.key == b.key && a.sp == b.sp; }
+};
+template <>
+struct Tr<RecS> {
+    static constexpr bool ident = true;
+    static constexpr const char* name = "recs";
+    static std::string tag_of(int key, int seq, int pos) {
+        return "key=" + std::to_string(key) + ";seq=" + std::to_string(seq) + ";pos=" + std::to_string(pos) + ";pad-beyond-the-sso-buffer";
+    }
+    static RecS make(int key, int seq, int pos) {
+        RecS r;
+        r.key = key, r.seq = seq, r.pos = pos;
+        r.tag = tag_of(key, seq, pos);
+        return r;
+    }
+    static int key(const RecS& e) { return e.key; }
+    static int seq(const RecS& e) { return e.seq; }
+    static int pos(const RecS& e) { return e.pos; }
+    static bool same(const RecS& a, const RecS& b) { return a.key == b.key && a.seq == b.seq && a.pos == b.pos && a.tag == b.tag; }
+};
+
 //! stateful comparator by key only (direction is run-time state: a merge that
 //! default-constructs its comparator instead of using the one passed is caught)
 //! comparison budget: a merge that stops making progress (possible in the bubble merge, whose loops have no other
@@ -130,6 +213,26 @@ struct DirCmp {
         if (salt != 0x5a17) pbt::fail("C05/comparator-lost", "merge used a comparator that is not a copy of the one passed");
         if (++g_cmp_calls > g_cmp_budget) throw StepBound();
         return desc ? Tr<E>::key(b) < Tr<E>::key(a) : Tr<E>::key(a) < Tr<E>::key(b);
+    }
+};
+
+//! comparator OWNING state with non-trivial copy / move: the direction lives in a heap vector, the key projection in
+//! a std::function, and a std::string longer than the small-string buffer is a canary. A library that keeps using a
+//! moved-from copy (empty string / empty vector / empty function) or a default-constructed one is caught
+//! (C05/comparator-lost); copies are counted only for the label histogram.
+template <class E>
+struct OwnCmp {
+    std::string canary;
+    std::vector<signed char> dir; // {desc}
+    std::function<int(const E&)> proj;
+    static const char* expected() { return "C05-owning-comparator-canary-longer-than-sso"; }
+    explicit OwnCmp(bool d) : canary(expected()), dir(1, (signed char)d), proj([](const E& e) { return Tr<E>::key(e); }) {}
+    OwnCmp() = default; // default-constructible like std::less, but unusable: must never be called
+    bool operator()(const E& a, const E& b) const {
+        if (canary != expected() || dir.size() != 1 || !proj)
+            pbt::fail("C05/comparator-lost", "merge used a comparator that is not a (live) copy of the one passed: moved-from or default-constructed");
+        if (++g_cmp_calls > g_cmp_budget) throw StepBound();
+        return dir[0] ? proj(b) < proj(a) : proj(a) < proj(b);
     }
 };
 
@@ -192,6 +295,148 @@ struct ItKind<E, false> {
     static It begin(std::vector<E>& v) { return v.begin(); }
 };
 
+// ---------------------------------------------------------------- storage / iterator kinds (target merge_iters)
+//
+// A kind holds `m` LOGICAL cells (cell j is what *(begin + j) refers to) in some container and hands out a legal
+// random-access iterator to cell 0. The oracle reads the cells back through at(j) and compares iterator DISTANCES,
+// never addresses. `salt` only selects the lay-out (deque front offset, stride).
+
+//! std::vector storage, raw pointer or vector iterator (the two kinds of targets merge / merge_scale)
+template <class E, bool RawPtr>
+struct VecKind {
+    using It = typename ItKind<E, RawPtr>::It;
+    static constexpr const char* name = RawPtr ? "pointer" : "vector";
+    std::vector<E> v;
+    void fill(const std::vector<E>& logical, uint64_t) { v = logical; } // exact-size heap block: ASan red zone right behind it
+    It begin() { return ItKind<E, RawPtr>::begin(v); }
+    const E& at(size_t j) const { return v[j]; }
+    size_t extra_cells() const { return 0; }
+    const E& extra(size_t) const { return v[0]; }
+    bool mid_block() const { return false; }
+};
+//! std::deque storage (512-byte blocks in libstdc++), begin usually NOT at a block start: `off` elements are pushed first
+//! and popped from the front afterwards (or the cells are pushed to the front in reverse order)
+template <class E>
+struct DequeKind {
+    using It = typename std::deque<E>::iterator;
+    static constexpr const char* name = "deque";
+    std::deque<E> d;
+    size_t off = 0;
+    void fill(const std::vector<E>& logical, uint64_t salt) {
+        const size_t blk = std::max<size_t>(1, 512 / sizeof(E));
+        off = (size_t)(salt % (blk + 3));
+        if ((salt >> 20) & 1) { // built from the back to the front
+            for (size_t j = logical.size(); j-- > 0;) d.push_front(logical[j]);
+            for (size_t j = 0; j < off; ++j) d.push_front(logical.empty() ? E() : logical[0]);
+        } else {
+            for (size_t j = 0; j < off; ++j) d.push_back(logical.empty() ? E() : logical[0]);
+            for (const E& e : logical) d.push_back(e);
+        }
+        for (size_t j = 0; j < off; ++j) d.pop_front();
+    }
+    It begin() { return d.begin(); }
+    const E& at(size_t j) const { return d[j]; }
+    size_t extra_cells() const { return 0; }
+    const E& extra(size_t) const { return d[0]; }
+    bool mid_block() const { return off % std::max<size_t>(1, 512 / sizeof(E)) != 0; }
+};
+//! std::reverse_iterator over a vector / deque that holds the cells back to front (i.e. the container is sorted
+//! DEscending w.r.t. the comparator, the iterators see it ascending); logical cell m-1 (a sentinel) is physical cell 0
+template <class E, bool Deque>
+struct ReverseKind {
+    using Cont = typename std::conditional<Deque, std::deque<E>, std::vector<E>>::type;
+    using It = std::reverse_iterator<typename Cont::iterator>;
+    static constexpr const char* name = Deque ? "reverse_deque" : "reverse_vector";
+    Cont c;
+    size_t off = 0;
+    void fill(const std::vector<E>& logical, uint64_t salt) {
+        if (Deque) { // back offset: cells behind the logical range start at the physical back; remove them again
+            const size_t blk = std::max<size_t>(1, 512 / sizeof(E));
+            off = (size_t)(salt % (blk + 3));
+        }
+        for (size_t j = logical.size(); j-- > 0;) c.push_back(logical[j]);
+        for (size_t j = 0; j < off; ++j) c.push_back(logical.empty() ? E() : logical[0]);
+        for (size_t j = 0; j < off; ++j) c.pop_back();
+        if (!Deque) Cont(c).swap(c); // exact-size heap block
+    }
+    It begin() { return It(c.end()); }
+    const E& at(size_t j) const { return c[c.size() - 1 - j]; }
+    size_t extra_cells() const { return 0; }
+    const E& extra(size_t) const { return c[0]; }
+    bool mid_block() const { return Deque; }
+};
+//! own random-access iterator: cell j is element off + j*stride of a vector (stride 2, 3 or -2; the cells in between
+//! hold a filler value that must never be read or written). Index-based, so no out-of-range pointer is ever formed.
+template <class E>
+struct StrideIt {
+    using iterator_category = std::random_access_iterator_tag;
+    using value_type = E;
+    using difference_type = std::ptrdiff_t;
+    using pointer = E*;
+    using reference = E&;
+    E* base = nullptr;
+    std::ptrdiff_t off = 0, stride = 1, idx = 0;
+    reference operator*() const { return base[off + idx * stride]; }
+    pointer operator->() const { return &base[off + idx * stride]; }
+    reference operator[](difference_type n) const { return base[off + (idx + n) * stride]; }
+    StrideIt& operator++() { return ++idx, *this; }
+    StrideIt& operator--() { return --idx, *this; }
+    StrideIt operator++(int) { StrideIt t = *this; return ++idx, t; }
+    StrideIt operator--(int) { StrideIt t = *this; return --idx, t; }
+    StrideIt& operator+=(difference_type n) { return idx += n, *this; }
+    StrideIt& operator-=(difference_type n) { return idx -= n, *this; }
+    friend StrideIt operator+(StrideIt a, difference_type n) { return a += n; }
+    friend StrideIt operator+(difference_type n, StrideIt a) { return a += n; }
+    friend StrideIt operator-(StrideIt a, difference_type n) { return a -= n; }
+    friend difference_type operator-(const StrideIt& a, const StrideIt& b) { return a.idx - b.idx; }
+    friend bool operator==(const StrideIt& a, const StrideIt& b) { return a.idx == b.idx; }
+    friend bool operator!=(const StrideIt& a, const StrideIt& b) { return a.idx != b.idx; }
+    friend bool operator<(const StrideIt& a, const StrideIt& b) { return a.idx < b.idx; }
+    friend bool operator>(const StrideIt& a, const StrideIt& b) { return a.idx > b.idx; }
+    friend bool operator<=(const StrideIt& a, const StrideIt& b) { return a.idx <= b.idx; }
+    friend bool operator>=(const StrideIt& a, const StrideIt& b) { return a.idx >= b.idx; }
+};
+template <class E>
+struct StrideKind {
+    using It = StrideIt<E>;
+    static constexpr const char* name = "stride";
+    std::vector<E> v;
+    E fillv = Tr<E>::make(POISON_KEY + 1, 251, 60001);
+    std::ptrdiff_t stride = 2, off = 0;
+    size_t m = 0;
+    void fill(const std::vector<E>& logical, uint64_t salt) {
+        static const int S[3] = {2, 3, -2};
+        stride = S[salt % 3];
+        m = logical.size();
+        const size_t a = (size_t)(stride < 0 ? -stride : stride);
+        v.assign(m == 0 ? 0 : (m - 1) * a + 1, fillv);
+        off = stride < 0 && m > 0 ? (std::ptrdiff_t)((m - 1) * a) : 0;
+        for (size_t j = 0; j < m; ++j) v[(size_t)(off + (std::ptrdiff_t)j * stride)] = logical[j];
+    }
+    It begin() {
+        It it;
+        it.base = v.data(), it.off = off, it.stride = stride, it.idx = 0;
+        return it;
+    }
+    const E& at(size_t j) const { return v[(size_t)(off + (std::ptrdiff_t)j * stride)]; }
+    //! the filler cells between the logical ones (must stay untouched)
+    size_t extra_cells() const { return v.size() - m; }
+    const E& extra(size_t x) const {
+        const size_t a = (size_t)(stride < 0 ? -stride : stride);
+        return v[x / (a - 1) * a + 1 + x % (a - 1)];
+    }
+    const E& filler() const { return fillv; }
+    bool mid_block() const { return false; }
+};
+template <class K>
+struct IsStride : std::false_type {};
+template <class E>
+struct IsStride<StrideKind<E>> : std::true_type {};
+
+static const char* const IT_PAIR_LABEL[8] = {"in=deque,out=vector",          "in=reverse_vector,out=vector", "in=stride,out=deque",
+                                             "in=vector,out=deque",          "in=pointer,out=reverse_vector", "in=deque,out=deque",
+                                             "in=reverse_deque,out=stride",  "in=reverse_vector,out=reverse_deque"};
+
 static const char* const ENTRY_NAME[8] = {"multiway_merge",
                                           "stable_multiway_merge",
                                           "multiway_merge_sentinels",
@@ -227,6 +472,9 @@ struct Shape {
     int nvals = 1;
     // scale target only (labels)
     int prof = -1, keymode = -1;
+    // iters target only: lay-out salt (deque offsets, strides) and labels
+    uint64_t salt = 0;
+    int sizemode = -1;
 };
 
 //! unguarded-phase boundary (what prepare_unguarded computes), for labels and the length bias
@@ -483,16 +731,116 @@ inline void gen_scale(pbt::Source& src, const Cfg& cfg, Shape& sh) {
     sh.keymode = keymode;
 }
 
-template <class E, bool RawPtr, bool Stable, class Cmp>
-void run_case(pbt::Source& src, const Cfg& cfg, Cmp cmp) {
+static const char* const ITERS_SIZE_LABEL[4] = {"sizes=1-2_long_rest_short", "sizes=around_block_multiples", "sizes=uniform_0..3_blocks", "sizes=short_0..8"};
+static const char* const ITERS_KEY_LABEL[5] = {"keys=1..8_values", "keys=moderate", "keys=wide", "keys=disjoint_by_seq(random_rank)", "keys=identical_ramps"};
+
+//! target `merge_iters`: shapes for the iterator-kind dimension. What matters here is how the sequences lie relative to
+//! the 512-byte blocks of a std::deque (`blk` = elements per block for the element type) and that one input runs out
+//! while another still has a long tail (the bulk-copy paths of merge_advance / the k = 1 copy): selectors from the
+//! choice bytes, sizes and keys expanded from a drawn 24-bit seed.
+//!   k        2, 3, 4, 5, 1, 6..10, 12, 0 | 13..40
+//!   sizes    1-2 long sequences (1..5 blocks) and short others | every sequence m*blk-1/+0/+1 (m = 1..3) | uniform
+//!            0..3 blocks | short 0..8; total capped at ~2500; then none / few / a third of the sequences emptied
+//!   keys     1..8 values | ~total/4 values | wide | disjoint ranges, sequences in a random rank order (one input is
+//!            exhausted long before the other: long tails) | identical ramps
+//!   length   as in `merge`: total | near total | uniform | 0 | 1 | total-1 | unguarded boundary -1/+0/+1
+inline void gen_iters(pbt::Source& src, const Cfg& cfg, Shape& sh, int blk) {
+    const bool desc = cfg.desc;
+    auto kless = [desc](int a, int b) { return desc ? b < a : a < b; };
+    static const int K[12] = {2, 3, 4, 5, 1, 6, 7, 8, 9, 10, 12, 0};
+    const size_t kc = src.weighted({10, 9, 6, 4, 1, 2, 2, 2, 1, 1, 1, 1, 3});
+    const int k = sh.k = kc < 12 ? K[kc] : (int)src.range(13, 40);
+    const int sizemode = sh.sizemode = (int)src.weighted({5, 4, 3, 3});
+    const int keymode = sh.keymode = (int)src.weighted({4, 3, 3, 4, 2});
+    const size_t lenmode = src.weighted({6, 4, 4, 1, 1, 2, 5});
+    const size_t emptymode = src.weighted({6, 3, 1});
+    const int lensel = (int)src.range(0, 5);
+    sh.sentvary = (int)src.range(0, 2);
+    const uint64_t seed = src.bits(3);
+    Rng rng{seed * 0x2545F4914F6CDD1Dull + 0x7654321ull + ((uint64_t)(cfg.entry * 80 + cfg.alg * 16 + cfg.pair * 2 + cfg.desc) << 44)};
+    sh.salt = rng.next();
+
+    // ---- sizes
+    const long cap = std::max<long>(8, 2500 / std::max(1, k)); // per-sequence cap
+    std::vector<int>& n = sh.n;
+    n.assign(k, 0);
+    for (int i = 0; i < k; ++i) {
+        long L;
+        switch (sizemode) {
+        case 0: L = 1 + rng.below(6); break;
+        case 1: L = blk * (1 + rng.below(3)) + rng.below(3) - 1; break;
+        case 2: L = rng.below(3L * blk + 1); break;
+        default: L = rng.below(9); break;
+        }
+        n[i] = (int)std::min(L, cap);
+    }
+    if (sizemode == 0 && k > 0) {
+        const int m = 1 + (int)rng.below(2);
+        for (int j = 0; j < m; ++j) n[(size_t)rng.below(k)] = (int)std::min<long>(blk * (1 + rng.below(4)) + rng.below(blk), std::max<long>(cap, 5L * blk));
+    }
+    if (emptymode > 0) {
+        const long one_in = emptymode == 1 ? 8 : 3;
+        for (int i = 0; i < k; ++i)
+            if (rng.below(one_in) == 0) n[i] = 0;
+    }
+    std::ptrdiff_t total = 0;
+    for (int i = 0; i < k; ++i) total += n[i];
+    sh.total = total;
+
+    // ---- keys (non-negative), then sorted by the comparator
+    sh.keys.assign(k, std::vector<int>());
+    const long nv = keymode == 0 ? 1 + rng.below(8) : keymode == 1 ? std::max<long>(2, total / 4) : 1000001;
+    sh.nvals = keymode == 0 ? (int)nv : 1001;
+    std::vector<int> rank(k);
+    for (int i = 0; i < k; ++i) rank[i] = i;
+    for (int i = k - 1; i > 0; --i) std::swap(rank[i], rank[(size_t)rng.below(i + 1)]);
+    const long W = 1 + rng.below(50);
+    for (int i = 0; i < k; ++i) {
+        std::vector<int>& v = sh.keys[i];
+        v.resize(n[i]);
+        for (int j = 0; j < n[i]; ++j) {
+            switch (keymode) {
+            case 3: v[j] = (int)(rank[i] * W + rng.below(W + 1)); break; // neighbouring ranges share the boundary value
+            case 4: v[j] = j; break;
+            default: v[j] = (int)rng.below(nv); break;
+            }
+        }
+        std::sort(v.begin(), v.end(), kless);
+    }
+    compute_boundary(sh, desc);
+
+    // ---- length
+    std::ptrdiff_t length = total;
+    switch (lenmode) {
+    case 0: length = total; break;
+    case 1: length = total - (std::ptrdiff_t)rng.below(std::min<long>(total, 12) + 1); break;
+    case 2: length = (std::ptrdiff_t)rng.below(total + 1); break;
+    case 3: length = 0; break;
+    case 4: length = std::min<std::ptrdiff_t>(1, total); break;
+    case 5: length = std::max<std::ptrdiff_t>(0, total - 1); break;
+    default: {
+        std::ptrdiff_t base = (lensel & 1) ? sh.ub_stable : sh.ub_unstable;
+        std::ptrdiff_t l = base + (lensel >> 1) - 1;
+        if (sh.ub_unstable < 0 || l < 0 || l > total) length = total - (std::ptrdiff_t)rng.below(total + 1);
+        else length = l;
+        break;
+    }
+    }
+    sh.length = length;
+}
+
+template <class E, class InK, class OutK, bool DequeSeqs, bool Stable, class Cmp>
+void run_case_x(pbt::Source& src, const Cfg& cfg, Cmp cmp) {
     using T = Tr<E>;
-    using It = typename ItKind<E, RawPtr>::It;
+    using It = typename InK::It;
+    using OIt = typename OutK::It;
     const bool stable = Stable, sent = entry_sentinels(cfg.entry), desc = cfg.desc;
     auto kless = [desc](int a, int b) { return desc ? b < a : a < b; };
 
     // ---- shape
     Shape sh;
-    if (cfg.scale) gen_scale(src, cfg, sh);
+    if (cfg.iters) gen_iters(src, cfg, sh, (int)std::max<size_t>(1, 512 / sizeof(E)));
+    else if (cfg.scale) gen_scale(src, cfg, sh);
     else gen_base(src, cfg, sh);
     const bool scale = cfg.scale;
     const int k = sh.k;
@@ -515,33 +863,44 @@ void run_case(pbt::Source& src, const Cfg& cfg, Cmp cmp) {
         }
     }
 
-    // ---- build the inputs: one exact-size heap block per sequence (ASan red zone right behind it)
-    std::vector<std::vector<E>> bufs(k);
+    // ---- build the inputs: the logical cells of each sequence, then one store per sequence (vector kinds: one
+    // exact-size heap block, ASan red zone right behind it; the other kinds: see "storage / iterator kinds")
+    std::vector<std::vector<E>> orig_(k);
     for (int i = 0; i < k; ++i) {
-        bufs[i].resize((size_t)n[i] + (sent ? 1 : 0));
-        for (int j = 0; j < n[i]; ++j) bufs[i][j] = T::make(keys[i][j], i, j);
+        orig_[i].resize((size_t)n[i] + (sent ? 1 : 0));
+        for (int j = 0; j < n[i]; ++j) orig_[i][j] = T::make(keys[i][j], i, j);
         if (sent) {
             // documented precondition of the *_sentinels entry points: one more element behind each
             // sequence that is strictly greater (w.r.t. the comparator) than every real element
             int off = (i * sentvary) % 3;
             int sk = desc ? kmin - 1 - off : kmax + 1 + off;
-            bufs[i][n[i]] = T::make(sk, i, n[i]);
+            orig_[i][n[i]] = T::make(sk, i, n[i]);
         }
     }
-    const std::vector<std::vector<E>> orig = bufs;
-    std::vector<std::pair<It, It>> seqs(k);
+    const std::vector<std::vector<E>>& orig = orig_;
+    Rng layout{sh.salt ^ 0x5bd1e995u};
+    std::vector<InK> bufs(k);
+    for (int i = 0; i < k; ++i) bufs[i].fill(orig[i], layout.next() >> 8);
+    // the sequence of iterator pairs: std::vector, or (merge_iters) a std::deque whose begin is not at a block start
+    using SeqCont = typename std::conditional<DequeSeqs, std::deque<std::pair<It, It>>, std::vector<std::pair<It, It>>>::type;
+    SeqCont seqs;
     std::vector<It> base(k);
+    const size_t seqs_off = DequeSeqs ? (size_t)(layout.next() % 11) : 0;
+    for (size_t j = 0; j < seqs_off; ++j) seqs.push_back(std::pair<It, It>());
     for (int i = 0; i < k; ++i) {
-        base[i] = ItKind<E, RawPtr>::begin(bufs[i]);
-        seqs[i] = std::make_pair(base[i], base[i] + n[i]);
+        base[i] = bufs[i].begin();
+        seqs.push_back(std::make_pair(base[i], base[i] + n[i]));
     }
-    const std::vector<std::pair<It, It>> seqs0 = seqs;
+    if constexpr (DequeSeqs)
+        for (size_t j = 0; j < seqs_off; ++j) seqs.pop_front();
+    const std::vector<std::pair<It, It>> seqs0(seqs.begin(), seqs.end());
 
-    // ---- output with guard cells (anything further out is an ASan red zone)
+    // ---- output with guard cells (anything further out is an ASan red zone for the vector kinds)
     const std::ptrdiff_t G = 2;
     const E poison = T::make(POISON_KEY, 250, 60000);
-    std::vector<E> out((size_t)(length + 2 * G), poison);
-    It target = ItKind<E, RawPtr>::begin(out) + G;
+    OutK out;
+    out.fill(std::vector<E>((size_t)(length + 2 * G), poison), layout.next() >> 8);
+    OIt target = out.begin() + G;
 
     // ---- labels / non-triviality
     int nonempty = 0;
@@ -571,7 +930,29 @@ void run_case(pbt::Source& src, const Cfg& cfg, Cmp cmp) {
     pbt::label(sent ? "sentinels" : "no_sentinels");
     pbt::label(cfg.entry >= 4 ? "entry=base" : "entry=frontend");
     pbt::label(desc ? "cmp=greater" : "cmp=less");
-    pbt::label(std::is_same<E, int>::value ? "type=int" : std::is_same<E, Rec8>::value ? "type=rec8" : "type=rec40");
+    pbt::label(std::is_same<E, int>::value    ? "type=int"
+               : std::is_same<E, Rec8>::value ? "type=rec8"
+               : std::is_same<E, Rec40>::value ? "type=rec40"
+               : std::is_same<E, RecH>::value  ? "type=rech_owning_16B"
+                                               : "type=recs_owning_string");
+    if (cfg.iters) {
+        pbt::label(IT_PAIR_LABEL[cfg.pair]);
+        pbt::label("cmp_owning_state");
+        pbt::label("seqs_in_deque");
+        pbt::label(ITERS_SIZE_LABEL[sh.sizemode]);
+        pbt::label(ITERS_KEY_LABEL[sh.keymode]);
+        const size_t blk = std::max<size_t>(1, 512 / sizeof(E));
+        bool midblk = false;
+        for (int i = 0; i < k; ++i) midblk = midblk || (n[i] > 0 && bufs[i].mid_block());
+        if (midblk) pbt::label("in_begin_mid_block");
+        if ((size_t)maxseq > blk) pbt::label("seq_longer_than_512B_block");
+        if ((size_t)maxseq > 2 * blk) pbt::label("seq_longer_than_2_blocks");
+        int nlong = 0;
+        for (int i = 0; i < k; ++i) nlong += (size_t)n[i] > blk;
+        if (nlong >= 2) pbt::label("2+_seqs_longer_than_block");
+        if ((size_t)length > blk) pbt::label("output_longer_than_512B_block");
+        if (k == 2) pbt::label(length == total ? "k=2_full(merge_advance_tail)" : "k=2_partial");
+    }
     if (length < total) pbt::label("partial");
     if (length == 0) pbt::label("length=0");
     else if (length == 1) pbt::label("length=1");
@@ -655,7 +1036,7 @@ void run_case(pbt::Source& src, const Cfg& cfg, Cmp cmp) {
             PBT_LOG("  seq[" << i << "] n=" << n[i] << " keys:");
             for (int j = 0; j < n[i] && j < (scale ? 24 : 64); ++j) PBT_LOG(" " << keys[i][j]);
             if (n[i] > (scale ? 24 : 64)) PBT_LOG(" ... " << keys[i].back());
-            if (sent) PBT_LOG(" | sentinel " << T::key(bufs[i][n[i]]));
+            if (sent) PBT_LOG(" | sentinel " << T::key(orig[i][n[i]]));
             PBT_LOG("\n");
         }
     }
@@ -663,7 +1044,7 @@ void run_case(pbt::Source& src, const Cfg& cfg, Cmp cmp) {
     // ---- the call under test
     g_cmp_calls = 0;
     g_cmp_budget = 64 * ((long)total + k + 1) * (k + 1) + 10000; // >> k comparisons per element + set-up
-    It ret;
+    OIt ret;
     try {
         ret = call_merge<Stable>(cfg, omit_cmp, seqs.begin(), seqs.end(), target, length, cmp);
     } catch (const StepBound&) {
@@ -679,10 +1060,13 @@ void run_case(pbt::Source& src, const Cfg& cfg, Cmp cmp) {
     PBT_CHECK(ret - target == length, "C05/return",
               "returned iterator is target+" << (ret - target) << ", expected target+" << length);
     for (std::ptrdiff_t g = 0; g < G; ++g) {
-        PBT_CHECK(T::same(out[(size_t)g], poison), "C05/overwrite", "cell target-" << (G - g) << " (before the output range) was written");
-        PBT_CHECK(T::same(out[(size_t)(G + length + g)], poison), "C05/overwrite",
+        PBT_CHECK(T::same(out.at((size_t)g), poison), "C05/overwrite", "cell target-" << (G - g) << " (before the output range) was written");
+        PBT_CHECK(T::same(out.at((size_t)(G + length + g)), poison), "C05/overwrite",
                   "cell target+" << (length + g) << " (past the requested length " << length << ") was written");
     }
+    if constexpr (IsStride<OutK>::value)
+        for (size_t x = 0; x < out.extra_cells(); ++x)
+            PBT_CHECK(T::same(out.extra(x), out.filler()), "C05/overwrite", "a cell BETWEEN the cells of the strided output iterator was written");
     // reference: stable merge by (key, seq, pos)
     struct RefE {
         int key, seq, pos;
@@ -696,7 +1080,7 @@ void run_case(pbt::Source& src, const Cfg& cfg, Cmp cmp) {
     if (pbt::verbose()) {
         PBT_LOG("  output:");
         for (std::ptrdiff_t j = 0; j < length && j < 96; ++j) {
-            const E& e = out[(size_t)(G + j)];
+            const E& e = out.at((size_t)(G + j));
             if (T::ident) PBT_LOG(" " << T::key(e) << "@" << T::seq(e) << "." << T::pos(e));
             else PBT_LOG(" " << T::key(e));
         }
@@ -708,7 +1092,7 @@ void run_case(pbt::Source& src, const Cfg& cfg, Cmp cmp) {
     std::vector<std::ptrdiff_t> taken(k, 0);
     if (T::ident) {
         for (std::ptrdiff_t j = 0; j < length; ++j) {
-            const E& e = out[(size_t)(G + j)];
+            const E& e = out.at((size_t)(G + j));
             PBT_CHECK(!T::same(e, poison), "C05/unwritten", "output slot " << j << " of " << length << " was never written");
             int s = T::seq(e), p = T::pos(e);
             PBT_CHECK(s >= 0 && s < k && p >= 0 && p < n[s] && T::same(e, orig[s][p]), "C05/not-an-input",
@@ -716,12 +1100,12 @@ void run_case(pbt::Source& src, const Cfg& cfg, Cmp cmp) {
                                      << ") which is not an element of the inputs");
         }
         for (std::ptrdiff_t j = 0; j < length; ++j) {
-            const E& e = out[(size_t)(G + j)];
+            const E& e = out.at((size_t)(G + j));
             PBT_CHECK(T::key(e) == ref[(size_t)j].key, "C05/keys",
                       "output slot " << j << " has key " << T::key(e) << ", the " << j << "-th smallest key is " << ref[(size_t)j].key);
         }
         for (std::ptrdiff_t j = 0; j < length; ++j) {
-            const E& e = out[(size_t)(G + j)];
+            const E& e = out.at((size_t)(G + j));
             int s = T::seq(e), p = T::pos(e);
             PBT_CHECK(p == taken[s], "C05/prefix",
                       "output slot " << j << " is element " << p << " of sequence " << s << " but element " << taken[s]
@@ -734,7 +1118,7 @@ void run_case(pbt::Source& src, const Cfg& cfg, Cmp cmp) {
                                   << " of its elements were emitted");
         if (stable)
             for (std::ptrdiff_t j = 0; j < length; ++j) {
-                const E& e = out[(size_t)(G + j)];
+                const E& e = out.at((size_t)(G + j));
                 PBT_CHECK(T::seq(e) == ref[(size_t)j].seq && T::pos(e) == ref[(size_t)j].pos, "C05/stable-order",
                           "stable merge: output slot " << j << " is (key " << T::key(e) << ", seq " << T::seq(e) << ", pos "
                                                        << T::pos(e) << "), the stable merge has (key " << ref[(size_t)j].key
@@ -742,7 +1126,7 @@ void run_case(pbt::Source& src, const Cfg& cfg, Cmp cmp) {
             }
     } else {
         for (std::ptrdiff_t j = 0; j < length; ++j) {
-            const E& e = out[(size_t)(G + j)];
+            const E& e = out.at((size_t)(G + j));
             PBT_CHECK(!T::same(e, poison), "C05/unwritten", "output slot " << j << " of " << length << " was never written");
             PBT_CHECK(T::key(e) == ref[(size_t)j].key, "C05/keys",
                       "output slot " << j << " has key " << T::key(e) << ", the " << j << "-th smallest key is " << ref[(size_t)j].key);
@@ -763,12 +1147,39 @@ void run_case(pbt::Source& src, const Cfg& cfg, Cmp cmp) {
                       "the consumed input prefixes are not the emitted elements (" << j << "-th smallest consumed key " << pre[(size_t)j]
                                                                                    << ", emitted " << ref[(size_t)j].key << ")");
     }
-    for (int i = 0; i < k; ++i)
-        for (size_t j = 0; j < bufs[i].size(); ++j)
-            PBT_CHECK(T::same(bufs[i][j], orig[i][j]), "C05/input-modified", "input sequence " << i << " element " << j << " was modified");
+    for (int i = 0; i < k; ++i) {
+        for (size_t j = 0; j < orig[i].size(); ++j)
+            PBT_CHECK(T::same(bufs[i].at(j), orig[i][j]), "C05/input-modified", "input sequence " << i << " element " << j << " was modified");
+        if constexpr (IsStride<InK>::value)
+            for (size_t x = 0; x < bufs[i].extra_cells(); ++x)
+                PBT_CHECK(T::same(bufs[i].extra(x), bufs[i].filler()), "C05/input-modified",
+                          "input sequence " << i << ": a cell between the cells of the strided iterator was modified");
+    }
     if (pbt::verbose())
         for (int i = 0; i < k; ++i)
             if (seqs[i].second != seqs0[i].second) PBT_LOG("  note: end iterator of sequence " << i << " changed (not asserted)\n");
+}
+
+//! targets merge / merge_scale: std::vector storage, raw pointers or vector iterators, pairs in a std::vector
+template <class E, bool RawPtr, bool Stable, class Cmp>
+void run_case(pbt::Source& src, const Cfg& cfg, Cmp cmp) {
+    run_case_x<E, VecKind<E, RawPtr>, VecKind<E, RawPtr>, false, Stable>(src, cfg, cmp);
+}
+
+//! target merge_iters: dispatch on the (input kind, output kind) pair drawn by the dispatcher
+template <class E, bool Stable>
+void run_iters(pbt::Source& src, const Cfg& cfg) {
+    OwnCmp<E> cmp(cfg.desc);
+    switch (cfg.pair) {
+    case 0: run_case_x<E, DequeKind<E>, VecKind<E, false>, true, Stable>(src, cfg, cmp); break;
+    case 1: run_case_x<E, ReverseKind<E, false>, VecKind<E, false>, true, Stable>(src, cfg, cmp); break;
+    case 2: run_case_x<E, StrideKind<E>, DequeKind<E>, true, Stable>(src, cfg, cmp); break;
+    case 3: run_case_x<E, VecKind<E, false>, DequeKind<E>, true, Stable>(src, cfg, cmp); break;
+    case 4: run_case_x<E, VecKind<E, true>, ReverseKind<E, false>, true, Stable>(src, cfg, cmp); break;
+    case 5: run_case_x<E, DequeKind<E>, DequeKind<E>, true, Stable>(src, cfg, cmp); break;
+    case 6: run_case_x<E, ReverseKind<E, true>, StrideKind<E>, true, Stable>(src, cfg, cmp); break;
+    default: run_case_x<E, ReverseKind<E, false>, ReverseKind<E, true>, true, Stable>(src, cfg, cmp); break;
+    }
 }
 
 } // namespace c05
